@@ -13,6 +13,12 @@ package kgo
 //@ spec recBody(r *Record, tsDelta int64, offsetDelta int32) int = 1 + uvlen64(zz64(tsDelta)) + uvlen32(zz32(offsetDelta)) +
 //@   vl(len(r.Key)) + len(r.Key) + vl(len(r.Value)) + len(r.Value) + vl(len(r.Headers)) + hdrsLen(r.Headers, len(r.Headers))
 
+// The zig-zag varint of 0 is one byte (a nil key or value is written as the one-byte varint -1 and accounted as
+// the one-byte varint of its length 0). A bit-level fact: proved in bv mode, used by the integer-mode proofs below.
+//@ lemma vl_of_zero: uvlen32(zz32(0)) == 1
+//@   mode bv
+//@   prop C18
+
 // calculateRecordNumbers: the length field computed while batching is recBody for the timestamp delta it returns
 // and the offset delta "current number of records".
 //@ func (b *recBatch) calculateRecordNumbers(r *Record) (n recordNumbers)
@@ -26,15 +32,98 @@ package kgo
 //@   unfold hdrsLen(r.Headers, 0)
 //@   loop 0 invariant l == 1 + uvlen64(zz64(tsDelta)) + uvlen32(zz32(offsetDelta)) + vl(len(r.Key)) + len(r.Key) + vl(len(r.Value)) + len(r.Value) + vl(len(r.Headers)) + atentry(hdrsLen(r.Headers, rangeindex+1))
 
+// While a record is buffered its length field and timestamp delta live in two otherwise unused fields.
+//@ func (r *Record) lengthAndTimestampDelta() (length int32, tsDelta int64)
+//@   prop C18
+//@   nopanic
+//@   pure
+//@   ensures length == r.LeaderEpoch && tsDelta == r.Offset
+//@ func (r *Record) setLengthAndTimestampDelta(length int32, tsDelta int64)
+//@   prop C18
+//@   nopanic
+//@   modifies r.LeaderEpoch, r.Offset
+//@   ensures r.LeaderEpoch == length && r.Offset == tsDelta
+
 // promisedRec.appendTo: serializing a record appends its varint length field and then exactly recBody bytes for
 // the stored timestamp delta and the given offset delta.
 //@ func (pr promisedRec) appendTo(dst []byte, offsetDelta int32) (out []byte)
 //@   prop C18
+//@   uses vl_of_zero
 //@   nopanic
 //@   requires len(pr.Record.Headers) < 1073741824
 //@   requires [headers-below-a-terabyte] forall k in 0..len(pr.Record.Headers)+1 :: 0 <= hdrsLen(pr.Record.Headers, k) && hdrsLen(pr.Record.Headers, k) < 1099511627776
 //@   requires disjoint(pr.Record.Key, dst) && disjoint(pr.Record.Value, dst)
+//@   requires forall k in 0..len(pr.Record.Headers) :: disjoint(pr.Record.Headers[k].Value, dst)
+//@   requires forall k in 0..len(pr.Record.Headers) :: allocated(pr.Record.Headers[k].Value)  // (every reachable object exists: well-formedness, not a caller obligation)
 //@   ensures [appends-length-field-and-body] len(out) == len(dst) + uvlen32(zz32(old(pr.Record.LeaderEpoch))) + atentry(recBody(pr.Record, pr.Record.Offset, offsetDelta))
 //@   unfold hdrsLen(pr.Record.Headers, 0)
 //@   loop 0 unfold atentry(hdrsLen(pr.Record.Headers, rangeindex+2))
-//@   loop 0 invariant len(dst) == atentry(len(dst)) + uvlen32(zz32(pr.Record.LeaderEpoch)) + 1 + uvlen64(zz64(pr.Record.Offset)) + uvlen32(zz32(offsetDelta)) + vl(len(pr.Record.Key)) + len(pr.Record.Key) + vl(len(pr.Record.Value)) + len(pr.Record.Value) + vl(len(pr.Record.Headers)) + atentry(hdrsLen(pr.Record.Headers, rangeindex+1))
+//@   loop 0 invariant sameorigin(dst, old(dst)) || fresh(dst)
+//@   loop 0 invariant len(dst) == old(len(dst)) + uvlen32(zz32(pr.Record.LeaderEpoch)) + 1 + uvlen64(zz64(pr.Record.Offset)) + uvlen32(zz32(offsetDelta)) + vl(len(pr.Record.Key)) + len(pr.Record.Key) + vl(len(pr.Record.Value)) + len(pr.Record.Value) + vl(len(pr.Record.Headers)) + atentry(hdrsLen(pr.Record.Headers, rangeindex+1))
+
+// Together: a record buffered with the numbers calculateRecordNumbers returned (tryBuffer stores exactly those, see
+// below) and serialized at the offset delta it was buffered at occupies VarintLen(lengthField) + recBody bytes,
+// which is VarintLen(lengthField) + lengthField = recordNumbers.wireLength() whenever the body is below 2 GiB
+// (int32(recBody) == recBody) - the length prefix written is the length of what follows, and the batch's running
+// wireLength (appendRecord) is the sum of what appendTo will write.
+//@ func (n recordNumbers) wireLength() (w int32)
+//@   prop C18
+//@   nopanic
+//@   pure
+//@   ensures w == int32(uvlen32(zz32(n.lengthField))) + n.lengthField
+
+// tryBuffer: a record joins a batch only if the batch is not frozen and its wire length for the produce version
+// plus the record's wire length stays within maxBatchBytes; the numbers stored on the record are the calculated ones.
+//@ func (b *recBatch) tryBuffer(pr promisedRec, produceVersion int32, maxBatchBytes int32, abortOnNewBatch bool) (appended bool, aborted bool)
+//@   prop C18
+//@   requires len(pr.Record.Headers) < 1073741824
+//@   requires [headers-below-a-terabyte] forall k in 0..len(pr.Record.Headers)+1 :: 0 <= hdrsLen(pr.Record.Headers, k) && hdrsLen(pr.Record.Headers, k) < 1099511627776
+//@   site call appendRecord#0 assert [only-when-it-fits] !b.frozen && !abortOnNewBatch && $wireLengthForProduceVersion0_0 + $wireLength0 <= maxBatchBytes
+//@   site call appendRecord#0 assert [with-the-calculated-numbers] arg2 == $calculateRecordNumbers0
+//@   site call setLengthAndTimestampDelta#0 assert [numbers-stored-on-the-record] arg0 == pr.Record && arg1 == $calculateRecordNumbers0.lengthField && arg2 == $calculateRecordNumbers0.tsDelta
+//@   ensures [appended-means-both-steps-ran] appended ==> (reached($wireLength0) && !aborted)
+
+// appendRecord: the batch's running wire length grows by exactly the record's wire length, the record is appended last.
+//@ func (b *recBatch) appendRecord(pr promisedRec, nums recordNumbers)
+//@   prop C18
+//@   ensures [running-length-is-the-sum] b.wireLength == old(b.wireLength) + (int32(uvlen32(zz32(nums.lengthField))) + nums.lengthField)
+//@   ensures [appended-last] len(b.records) == old(len(b.records)) + 1 && b.records[len(b.records)-1] == pr
+
+// maxRecordBatchBytesForTopic: never above the configured per-topic limit, and never above what is left of
+// maxBrokerWriteBytes after the request overhead for one topic with one partition.
+//@ func (cl *Client) maxRecordBatchBytesForTopic(topic string) (lim int32)
+//@   prop C18
+//@   frozen cl.cfg.maxBrokerWriteBytes
+//@   ensures [within-the-configured-limit] lim <= $call0
+//@   ensures [leaves-room-for-the-request-overhead] lim <= cl.cfg.maxBrokerWriteBytes - ($baseProduceRequestLength0 + 2 + int32(ite(len(topic) > 16, len(topic), 16)) + 4 + 4 + 4)
+
+//@ func (cl *Client) baseProduceRequestLength() (n int32)
+//@   prop C18
+//@   nopanic
+//@   pure
+//@   ensures n == 26 + ite(cl.cfg.id != nil, int32(len(*cl.cfg.id)), 0) + ite(cl.cfg.txnID != nil, int32(len(*cl.cfg.txnID)), 0)
+//@ func messageSet0Length(r *Record) (n int32)
+//@   prop C18
+//@   nopanic
+//@   pure
+//@   ensures n == 30 + int32(len(r.Key)) + int32(len(r.Value))
+//@ func messageSet1Length(r *Record) (n int32)
+//@   prop C18
+//@   nopanic
+//@   pure
+//@   ensures n == 30 + int32(len(r.Key)) + int32(len(r.Value)) + 8
+
+// tryAddBatch: a batch joins a produce request only if the request's running wire length plus the batch's length
+// for the produce version (with the partition prefix, the topic overhead when the topic is new, and the growth of
+// the compact partition-array prefix) stays within the request's limit; the running length then grows by exactly
+// that amount and the batch is frozen before it is handed to the request. (Assumed: no callee touches the request
+// under construction - `frozen`.)
+//@ func (p *produceRequest) tryAddBatch(produceVersion int32, recBuf *recBuf, batch *recBatch) (ok bool)
+//@   prop C18
+//@   frozen p.wireLength, p.wireLengthLimit, recBuf.topic
+//@   site store wireLength#0 assert [request-stays-within-the-limit] val <= p.wireLengthLimit && val == prev + batchWireLength
+//@   site store wireLength#0 assert [known-topic-non-flexible] (exists && !flexible) ==> batchWireLength == $wireLengthForProduceVersion0_0 + 4
+//@   site store wireLength#0 assert [new-topic-non-flexible] (!exists && !flexible && !topicIDs) ==> batchWireLength == $wireLengthForProduceVersion0_0 + 4 + 2 + int32(len(recBuf.topic)) + 4
+//@   site store wireLength#0 assert [new-topic-with-topic-id] (!exists && topicIDs) ==> batchWireLength == $wireLengthForProduceVersion0_0 + 4 + 16 + 1
+//@   site call addBatch#0 assert [frozen-before-it-is-added] batch.frozen && arg5 == batch
+//@   ensures [added-means-accounted] ok ==> reached($wireLengthForProduceVersion0_0) && p.wireLength <= p.wireLengthLimit
